@@ -237,6 +237,76 @@ pub open spec fn vx_fun_agrees_v<T, U, V, F: Fn(&T) -> Option<U>>(f: F, fs: spec
 pub open spec fn vx_topn_state<T, V>(v: Seq<T>, a: spec_fn(T) -> bool, b: spec_fn(T) -> bool, c: spec_fn(T) -> bool, fs: spec_fn(T) -> Option<V>) -> (int, Seq<V>) {
     (v.filter(vx_and3(a, b, c)).len() as int, vx_seq_filtermap(v.filter(vx_and3(a, b, c)), fs))
 }
+/// membership in a filtered sequence, and filtering keeps a sequence duplicate-free
+pub proof fn vx_lemma_filter_members<T>(s: Seq<T>, ps: spec_fn(T) -> bool)
+    ensures
+        forall|y: T| #![trigger s.filter(ps).contains(y)] s.filter(ps).contains(y) <==> (s.contains(y) && ps(y)),
+        s.no_duplicates() ==> s.filter(ps).no_duplicates(),
+        s.filter(ps).len() <= s.len(),
+    decreases s.len(),
+{
+    if s.len() == 0 {
+        reveal_with_fuel(Seq::filter, 1);
+        assert(s.filter(ps) =~= Seq::<T>::empty());
+    } else {
+        let t = s.drop_last();
+        let x = s.last();
+        vx_lemma_filter_members(t, ps);
+        vx_lemma_filter_push(t, x, ps);
+        assert(s =~= t.push(x));
+        let ft = t.filter(ps);
+        let fs = s.filter(ps);
+        assert forall|y: T| fs.contains(y) <==> (s.contains(y) && ps(y)) by {
+            if fs.contains(y) {
+                let i = choose|i: int| 0 <= i < fs.len() && fs[i] == y;
+                if ps(x) && i == ft.len() {
+                    assert(y == x);
+                    assert(s[s.len() - 1] == y);
+                } else {
+                    assert(ft[i] == y);
+                    assert(ft.contains(y));
+                    let j = choose|j: int| 0 <= j < t.len() && t[j] == y;
+                    assert(s[j] == y);
+                }
+            }
+            if s.contains(y) && ps(y) {
+                let j = choose|j: int| 0 <= j < s.len() && s[j] == y;
+                if j < t.len() {
+                    assert(t[j] == y);
+                    assert(t.contains(y));
+                    assert(ft.contains(y));
+                    let i = choose|i: int| 0 <= i < ft.len() && ft[i] == y;
+                    assert(fs[i] == y);
+                } else {
+                    assert(y == x);
+                    assert(fs[fs.len() - 1] == y);
+                }
+            }
+        }
+        if s.no_duplicates() {
+            assert(t.no_duplicates()) by {
+                assert forall|i: int, j: int| 0 <= i < t.len() && 0 <= j < t.len() && i != j implies t[i] != t[j] by {
+                    assert(s[i] == t[i] && s[j] == t[j]);
+                }
+            }
+            if ps(x) {
+                assert(!t.contains(x)) by {
+                    if t.contains(x) {
+                        let j = choose|j: int| 0 <= j < t.len() && t[j] == x;
+                        assert(s[j] == x && s[s.len() - 1] == x);
+                    }
+                }
+                assert(!ft.contains(x));
+                assert forall|i: int, j: int| 0 <= i < fs.len() && 0 <= j < fs.len() && i != j implies fs[i] != fs[j] by {
+                    if i == ft.len() { assert(ft[j] == fs[j]); assert(ft.contains(fs[j])); }
+                    else if j == ft.len() { assert(ft[i] == fs[i]); assert(ft.contains(fs[i])); }
+                    else { assert(ft[i] == fs[i] && ft[j] == fs[j]); }
+                }
+            }
+        }
+    }
+}
+
 pub proof fn vx_lemma_filter_prefix<T>(v: Seq<T>, k: int, ps: spec_fn(T) -> bool)
     requires 0 <= k <= v.len(),
     ensures v.filter(ps) == v.take(k).filter(ps) + v.skip(k).filter(ps),
